@@ -56,4 +56,14 @@ CLAIMED["C04"] = {
     "note": TB + "; adapters (range<->cell<->cell-range) enter as leaf source kinds with observed hints, merge iterator not modelled",
     "technique": "Lean 4 proof (induction over programs, hint invariant) + differential correspondence",
 }
+CLAIMED["C06"] = {
+    "text": "Theorem fixedDepth_build: for EVERY cell sequence and EVERY buffer capacity the fixed-depth builder model (push with duplicate test, "
+            "sorted flag, sort-on-drain, buff_to_moc, union with the previous MOC) returns normalize(union of the cells): order-, duplicate- and "
+            "capacity-invariance are corollaries. Theorems kway{Or,And,Xor}_eq_fold: for every list length the lagged 4-by-4 KWay4 recursion equals the "
+            "left fold of the binary operator (associativity obtained from the unique normal form). The max-depth range builder is modelled and "
+            "checked by correspondence only (partial). A genuine defect of the push_v2 variant was found and repaired.",
+    "design_ref": "DESIGN.md §4 C06, §10",
+    "note": TB,
+    "technique": "Lean 4 proof (history invariant over pushes; generic associativity argument) + differential correspondence",
+}
 NOT_YET = {}
